@@ -147,6 +147,39 @@ func ruleVersionFlip(c *eng.Ctx) {
 		}
 		return true
 	})
+	// the upward search for the active version starts from a root that was determined on every path
+	for _, cs := range eng.Calls(info, fi.Decl.Body) {
+		if cs.Name != "internal/db.(*DB).getActiveCollectionUp" || len(cs.Call.Args) != 3 {
+			continue
+		}
+		var root types.Object
+		ast.Inspect(cs.Call.Args[2], func(x ast.Node) bool {
+			if id, ok := x.(*ast.Ident); ok && root == nil {
+				if v, ok := info.Uses[id].(*types.Var); ok && !v.IsField() {
+					root = v
+				}
+			}
+			return true
+		})
+		if root == nil {
+			continue
+		}
+		pt, _ := flow.PointOf(cs.Call)
+		unassigned := flow.ReachesWithout(pt, func(nd ast.Node) bool {
+			as, ok := nd.(*ast.AssignStmt)
+			if !ok {
+				return false
+			}
+			for _, l := range as.Lhs {
+				if eng.ObjOf(info, l) == root {
+					return true
+				}
+			}
+			return false
+		}, nil)
+		c.Check(!unassigned, rule, "setActiveSchemaVersion:up-search-root-assigned", cs.Call.Pos(), "the upward search starts from a root determined on every path",
+			"getActiveCollectionUp is reachable with "+root.Name()+" still at its zero value (no assignment on some path): when the target version is the root of the chain the previously active version is not found and stays active next to it")
+	}
 	// the type system is reloaded after the saves on the success path
 	for _, cs := range eng.Calls(info, fi.Decl.Body) {
 		if cs.Name == "internal/db.(*DB).loadSchema" && cs.Call.Pos() > on.stmt.Pos() {
